@@ -107,3 +107,8 @@ try:
     HARNESSES += HARNESSES_LHNEW
 except ImportError:
     pass
+
+# dropped after calibration of the thorough tier on a loaded machine (inconclusive: solver memory / no verdict within the budget); what they
+# would add is stated as outside the claim: tree builder step at 31 / 63 symbolic code lengths, fully symbolic lh_new read at HISTORY_BITS 9 / 10
+_DROP = {"tree.add.lhtemp", "tree.add.pm2code", "tree.add.lhoff6", "lhnew.read.hb9", "lhnew.read.lk.hb10"}
+HARNESSES = [h for h in HARNESSES if h["name"] not in _DROP]
